@@ -181,10 +181,55 @@ META5 = {
  ("C19","H"): dict(needs="sync global Result with invalidate_on, no max_memory; stale entry, Ok refresh, same call again", demo_dest="tests/", detected_by=["C19 (oracles err / inv on the Result + invalidate_on functions)", "C09"]),
 }
 
+META6 = {
+ ("C01","I"): dict(needs="sync function with a nested collection argument (Vec<Vec<T>>); two groupings of the same scalar sequence", demo_dest="tests/", detected_by=["C01 (oracle pure on the nested-collection functions, sig 10)", "C02"]),
+ ("C01","J"): dict(needs="async function with a Vec<u8> / &[u8] parameter; two buffers that are not valid UTF-8 and differ only inside the invalid sequence", demo_dest="cachelito-async/tests/", detected_by=["C01 (oracle pure on the byte-buffer functions, sig 13)"]),
+ ("C02","I"): dict(needs="async method with &self; two receiver VALUES at one address in turn (one object mutated, or short-lived receivers)", demo_dest="cachelito-async/tests/", detected_by=["C02 (keys part / oracle pure on methods with a receiver built afresh per call, sig 14)"]),
+ ("C02","J"): dict(needs="sync function with a float (component); two values equal after rounding to 9 decimals", demo_dest="tests/", detected_by=["C02 (keys part)"]),
+ ("C03","I"): dict(needs="sync global cache; two callers that miss on DIFFERENT arguments and store at the same time", demo_dest="tests/", detected_by=["C03 (schedules dk-: two overlapping first calls for different keys, both served afterwards)"]),
+ ("C03","J"): dict(needs="async fn without a return type", demo_dest="cachelito-async/tests/", detected_by=["C03 (oracle once on the functions without a return value)"]),
+ ("C04","I"): dict(needs="async limit AND max_memory; cache full, a value larger than max_memory offered under a new key", demo_dest="cachelito-async/tests/", detected_by=["C04 (c04 predicate / correspondence)"]),
+ ("C04","J"): dict(needs="sync global limit with tags/events/dependencies; group invalidation of a non-empty cache, then NEW keys", demo_dest="tests/", detected_by=["C04 (macro oracle limit)"]),
+ ("C04","K"): dict(needs="sync global limit AND max_memory; any fill to the limit", demo_dest="tests/", detected_by=["C04 (c04 predicate)"]),
+ ("C05","I"): dict(needs="sync global ttl AND max_memory; entries expire without being looked up, then stores", demo_dest="tests/", detected_by=["C05 (c05 predicate: total > max_memory)"]),
+ ("C05","J"): dict(needs="scope = thread, max_memory, fifo; a re-store of a cached key that is not at the back (stale refresh), then pressure or an oversize refresh", demo_dest="tests/", detected_by=["C05 (core part: queue correspondence / order predicates under memory pressure)"]),
+ ("C06","I"): dict(needs="async ttl with a limit; an expired lookup NOT followed by a store of that key (Err / rejected), then stores", demo_dest="cachelito-async/tests/", detected_by=["C06 (c06 predicate: expired key still stored after the lookup)"]),
+ ("C06","J"): dict(needs="scope = thread with ttl and limit; an entry stored twice (stale refresh) that later expires", demo_dest="tests/", detected_by=["C06 (core part: queue correspondence / c06 predicate)"]),
+ ("C07","I"): dict(needs="sync global lru with max_memory and NO limit; a hit on an older entry, then an overflow", demo_dest="tests/", detected_by=["C07 (c07 predicate under memory pressure)"]),
+ ("C07","J"): dict(needs="async fifo/lru with max_memory and invalidate_on; an oversize refresh of a cached key, then an overflow", demo_dest="cachelito-async/tests/", detected_by=["C07 (correspondence / order oracle)"]),
+ ("C08","I"): dict(needs="sync lfu/arc/tlru with max_memory and NO limit; hits, then a memory overflow", demo_dest="tests/", detected_by=["C08 (c08 predicate + freq correspondence)"]),
+ ("C08","J"): dict(needs="async tlru with frequency_weight written BEFORE policy in the attribute list", demo_dest="cachelito-async/tests/", detected_by=["C08 (oracle score on the weighted TLRU functions; the corpus rotates attribute order)"]),
+ ("C09","I"): dict(needs="async Result with limit or max_memory; a failing call for a further key while the cache is full of Ok entries", demo_dest="cachelito-async/tests/", detected_by=["C09 (oracle err: an Err is stored)"]),
+ ("C09","J"): dict(needs="sync Result with invalidate_on; a stale entry whose refresh fails", demo_dest="tests/", detected_by=["C09 (oracle err: a failing call removed the stored Ok)"]),
+ ("C10","I"): dict(needs="async cache_if; two executions for one key that overlap, the first finisher accepted", demo_dest="cachelito-async/tests/", detected_by=["C10 (suspended calls on gated cache_if functions: consultation at resume)"]),
+ ("C10","J"): dict(needs="sync cache_if AND max_memory; a result larger than max_memory", demo_dest="tests/", detected_by=["C10 (oracle cif: consultation log)"]),
+ ("C11","I"): dict(needs="async max_memory with invalidate_on; stale and fresh value each fit max_memory alone but not together", demo_dest="cachelito-async/tests/", detected_by=["C11 (oracle inv: fresh result did not replace the stale entry)"]),
+ ("C11","J"): dict(needs="sync ttl with invalidate_on (or an expired entry); a refresh whose body takes real time >= ttl", demo_dest="tests/", detected_by=["C11 / C06 (slow-body scenario: the call that follows the slow refresh at once is not served)"]),
+ ("C12","I"): dict(needs="one cache declaring the same label string in two kinds (tag + event, event + dependency); invalidation through the later kind", demo_dest="tests/", detected_by=["C12 (oracle tags on the functions with one label in two kinds)"]),
+ ("C12","J"): dict(needs="sync global cache WITHOUT tags/events/dependencies, used once; invalidate_cache(<its name>)", demo_dest="tests/", detected_by=["C12 (oracle tags for invalidate_cache: false for an unlabelled cache)"]),
+ ("C13","I"): dict(needs="sync global cache with a custom name; an invalidation addressed to its function identifier", demo_dest="tests/", detected_by=["C13 (invalidations by the identifier of a function whose cache carries another name; oracle frame)"]),
+ ("C13","J"): dict(needs="the same string used as an event by one cache and as a dependency by another", demo_dest="tests/", detected_by=["C13 (oracle frame; corpus functions sharing a string across kinds)", "C12"]),
+ ("C14","I"): dict(needs="sync global with ttl or limit, no invalidate_on; two threads computing one key, the slower one's store lands on a present entry", demo_dest="tests/", detected_by=["C14 (schedules ex-: the entry expires while a second caller computes; its fresh store must be served)"]),
+ ("C14","J"): dict(needs="async max_memory; two tasks store one key concurrently while others + 2 x size(k) exceeds max_memory", demo_dest="cachelito-async/tests/", detected_by=["C14 (schedules dm-: double store under max_memory evicts a resident entry that fits)"]),
+ ("C15","I"): dict(needs="sync global cache with tags/events/dependencies; lookups, then a group or by-name invalidation, then read the statistics", demo_dest="tests/", detected_by=["C15 (oracle stats with invalidations in the history)"]),
+ ("C15","J"): dict(needs="two caches whose names differ only in letter case, both used; statistics read or reset by name", demo_dest="tests/", detected_by=["C15 (twin-name scenario, oracle stats)"]),
+ ("C16","I"): dict(needs="async random with exactly one resident entry when an eviction is needed (limit = 1, or max_memory with room for one)", demo_dest="cachelito-async/tests/", detected_by=["C16 (core part: panic)"]),
+ ("C16","J"): dict(needs="sync global arc with ttl and limit; one expired, not looked-up entry behind two live ones in the queue, then an overflow", demo_dest="tests/", detected_by=["C16 (core part: panic)"]),
+ ("C17","I"): dict(needs="sync global arc/tlru; a hit concurrent with an operation that holds the queue lock and needs the map", demo_dest="tests/", detected_by=["C17 (lock traces: order violated; schedules: deadlock)"]),
+ ("C17","J"): dict(needs="sync global; invalidate_with matching a stored key, concurrent with a store that holds the queue lock", demo_dest="tests/", detected_by=["C17 (lock traces / schedules: deadlock)"]),
+ ("C18","I"): dict(needs="async lru/arc/tlru with limit; a hit between its contains_key and the queue lock while a store evicts that key; later a miss on it while the cache is full", demo_dest="cachelito-async/tests/", detected_by=["C18 (schedules: at quiescence the async queue lists a key that is not stored)"]),
+ ("C18","J"): dict(needs="sync global max_memory; a store overtaken, between its map insert and the queue lock, by an invalidation removing its key", demo_dest="tests/", detected_by=["C18 (schedules: panic in the storing call)"]),
+ ("C19","I"): dict(needs="frequency_weight written before policy = tlru (async observable)", demo_dest="cachelito-async/tests/", detected_by=["C19 (oracle score on the weighted TLRU functions)", "C08"]),
+ ("C19","J"): dict(needs="scope = thread with limit AND max_memory, the limit binding first", demo_dest="tests/", detected_by=["C19 (oracle limit)", "C04"]),
+ ("C20","I"): dict(needs="async fifo (lfu ties) with limit; a resumed store over an entry another call stored during the suspension, then an overflow", demo_dest="cachelito-async/tests/", detected_by=["C20 (oracle c20: the resumed call did not move its key to the back)"]),
+ ("C20","J"): dict(needs="async invalidate_on with Result or cache_if; a suspended call, a same-key call stores meanwhile, the resumed call's result is not cacheable", demo_dest="cachelito-async/tests/", detected_by=["C20 (oracle c20: entry stored meanwhile is gone)"]),
+}
+
 def main():
     todo = [(pid, v, m, "/tmp/mut/%s/out" % pid, v) for (pid, v), m in META.items()]
     todo += [(pid, v, m, "/tmp/mut/%sr4/out" % pid, {"G": "A", "H": "B"}[v]) for (pid, v), m in META4.items()]
     todo += [(pid, v, m, "/tmp/mut/%sr5/out" % pid, {"G": "A", "H": "B"}[v]) for (pid, v), m in META5.items()]
+    todo += [(pid, v, m, "/tmp/mut/%sr6/out" % pid, {"I": "A", "J": "B", "K": "C"}[v]) for (pid, v), m in META6.items()]
     todo += [(pid, v, m, "/tmp/mut/%sr2/out" % pid, {"C": "A", "D": "B"}[v]) for (pid, v), m in META2.items()]
     todo += [(pid, v, m, "/tmp/mut/%sr3/out" % pid, {"E": "A", "F": "B"}[v]) for (pid, v), m in META3.items()]
     for pid, v, m, src, sv in todo:
